@@ -58,7 +58,7 @@ CHECKS["C03"] = dict(
     "every generated key must lie in [1, n-1] and be accepted by privkey_int, its public keys (both forms) must equal the reference k*G and decode back, distinct draws must give distinct keys, and generation must terminate shortly after the last zero draw. "
     "A further stratum runs 2-4 simulated caller threads generating keys and deriving public keys concurrently under the baton scheduler, each run from a freshly imported package, so races on shared module state show up as a wrong k*G.",
     design_ref="DESIGN.md §4.1, §5 C03, §9.7",
-    note="Only the key-generation and 'public key = kG' clauses are decided; the group-law clauses over all points/scalars are pure functions and are not claimed by this technique (exercised only incidentally through k*G). Trusted: /verif/ref/secp256k1.py.",
+    note="Decided: key generation, 'public key = kG' for generated keys, refusal of malformed private keys over histories, concurrent callers. The group-law clauses over all points/scalars are pure functions and are NOT claimed by this technique; a few differential probes of point_add / point_scalar_mul against the reference run incidentally inside each history (clause `group-law`) and are reported as incidental reach only. Trusted: /verif/ref/secp256k1.py.",
     technique="deterministic simulation of the entropy source (scripted boundary / repeated / paired draws) around key generation; scoped claim",
 )
 
